@@ -706,7 +706,7 @@ func (g *evGen) e2e(idx int) {
 			}
 			a := g.emit(fmt.Sprintf("e2ehold %s %s %s %s", batchStr(bA), rowsStr(rowsA), batchStr(bB), rowsStr(rows())),
 				"e2e/refresh-held"+cA+"/then-DURING-the-refresh"+cB, true)
-			refreshed = strings.HasPrefix(a, "refreshed=2")
+			refreshed = strings.HasPrefix(a, "refreshed=") // also when the second refresh never came: the oracles judge the quiesced view against rowsB
 			if g.w.ev != nil {
 				prior = g.w.ev.holdPrior
 			}
